@@ -504,6 +504,19 @@ fn find_in_items(items: &[syn::Item], path: &[String]) -> Option<Found> {
                     continue;
                 }
                 for ti in &t.items {
+                    // a defaulted associated constant of a trait, printed like an impl constant
+                    if let syn::TraitItem::Const(c) = ti {
+                        if cfg_active(&c.attrs) && c.ident == path[1].as_str() && path.len() == 2 {
+                            if let Some((_, e)) = &c.default {
+                                return Some(Found {
+                                    line: c.span().start().line,
+                                    params: "[]".to_string(),
+                                    body: format!("[{}]", expr(e)),
+                                    tokens: e.to_token_stream().to_string(),
+                                });
+                            }
+                        }
+                    }
                     if let syn::TraitItem::Fn(f) = ti {
                         if !cfg_active(&f.attrs) {
                             continue;
